@@ -27,7 +27,9 @@ const Preamble = `(set-option :produce-models true)
 (declare-fun str.at_ (Str Int) Int)
 (assert (forall ((s Str)) (! (>= (str.len_ s) 0) :pattern ((str.len_ s)))))
 (assert (forall ((s Str) (i Int)) (! (and (<= 0 (str.at_ s i)) (< (str.at_ s i) 256)) :pattern ((str.at_ s i)))))
-(define-fun wf-loc ((l Loc) (top Int)) Bool (or (= l Null) (and ((_ is L) l) (<= (rt l) top))))
+(assert (= (rt Null) (- 1)))
+(assert (= (pth Null) PNil))
+(define-fun wf-loc ((l Loc) (top Int)) Bool (or (= l Null) (and ((_ is L) l) (<= 0 (rt l)) (<= (rt l) top))))
 (define-fun wf-slice ((s Slice) (top Int)) Bool (and (<= 0 (sl.off s)) (<= 0 (sl.len s)) (<= (sl.len s) (sl.cap s)) (wf-loc (sl.base s) top) (=> (= (sl.base s) Null) (and (= (sl.cap s) 0) (= (sl.off s) 0)))))
 (define-fun wf-iface ((i Iface) (top Int)) Bool (and (wf-loc (if.ptr i) top) (>= (if.tag i) 0) (=> (= (if.tag i) 0) (= (if.ptr i) Null))))
 (declare-fun bvand_ (Int Int) Int)
@@ -328,7 +330,8 @@ func Wrap(t types.Type, x string) string {
 		h := BigLit(Pow2(bits - 1))
 		return fmt.Sprintf("(- (mod (+ %s %s) %s) %s)", x, h, m, h)
 	}
-	return fmt.Sprintf("(mod %s %s)", x, BigLit(Pow2(bits)))
+	m := BigLit(Pow2(bits))
+	return fmt.Sprintf("(ite (and (<= 0 %s) (< %s %s)) %s (mod %s %s))", x, x, m, x, x, m)
 }
 
 // sortedKeys is a small helper for deterministic output.
